@@ -639,3 +639,37 @@ pub fn t059() -> (u32, u32, u32, f64) {
     let x: f64 = n.into();
     (a, b, fresh, x / 2.0)
 }
+pub enum Decl060 {
+    Q { size: Option<u64> },
+    C { size: Option<u64> },
+    Gate,
+}
+pub fn t060() -> (u64, Option<u64>, Option<u64>, u64) {
+    let decls = vec![
+        Box::new(Decl060::C { size: Some(4) }),
+        Box::new(Decl060::Q { size: Some(2) }),
+        Box::new(Decl060::Gate),
+        Box::new(Decl060::Q { size: None }),
+        Box::new(Decl060::Q { size: Some(3) }),
+    ];
+    let total: u64 = decls
+        .iter()
+        .map(|d| match &**d {
+            Decl060::Q { size } => size.unwrap_or(1),
+            _ => 0,
+        })
+        .sum();
+    let first = decls.iter().find_map(|d| match &**d {
+        Decl060::Q { size } => Some(size.unwrap_or(1)),
+        _ => None,
+    });
+    let none = decls.iter().find_map(|d| match &**d {
+        Decl060::C { size: Some(9) } => Some(9),
+        _ => None,
+    });
+    let cs: u64 = decls
+        .iter()
+        .map(|d| if let Decl060::C { size } = &**d { size.unwrap_or(1) } else { 0 })
+        .sum();
+    (total, first, none, cs)
+}
